@@ -2,11 +2,11 @@ package sx
 
 import (
 	"fmt"
-	"os"
-	"strings"
 	"go/constant"
 	"go/token"
 	"go/types"
+	"os"
+	"strings"
 
 	"golang.org/x/tools/go/ssa"
 )
